@@ -134,10 +134,24 @@ def run_case(res, root, p, s, rel, fault, skip, threads, cache):
             B.info_cache.clear()
             return world, execute(A, B, fa, fb, rel, fault, skip)
         finally:
+            world.close()
             restore()
             (fsmod.ThreadPoolExecutor, fsmod.ProcessPoolExecutor,
              fsmod.gc) = saved
 
+    import gc
+    gc.disable()
+    try:
+        explore_loop(res, run, stats, p, s, rel, fault, skip, threads)
+    finally:
+        gc.enable()
+    res.count("states", len(stats.states))
+    res.count("transitions", len(stats.transitions))
+    res.count("pruned_executions", stats.pruned)
+    res.count("configurations")
+
+
+def explore_loop(res, run, stats, p, s, rel, fault, skip, threads):
     for ctx, (world, obs) in explorer.explore(run, bound=0, prune=True,
                                               stats=stats):
         fin = [(pi, t) for k, pi, t in world.log if k == "finish"]
@@ -149,14 +163,11 @@ def run_case(res, root, p, s, rel, fault, skip, threads, cache):
             again = run(explorer.Ctx(tuple(ctx.choices)))[1]
             if repr(again) != repr(obs):
                 res.error("NONDETERMINISM align %r" % (rel,))
+                continue
             res.violation(bad[0], dict(group="align", p=p, s=s, rel=rel,
                                        fault=fault, skip=skip,
                                        threads=threads, choices=ctx.choices),
                           bad[1], bad[2])
-    res.count("states", len(stats.states))
-    res.count("transitions", len(stats.transitions))
-    res.count("pruned_executions", stats.pruned)
-    res.count("configurations")
 
 
 def run_shard(shard):
@@ -164,7 +175,9 @@ def run_shard(shard):
     res = driver.ShardResult()
     root = driver.fresh_dir("c10a")
     cache = {}
+    import gc
     for rel in rels:
+        gc.collect()
         for threads in (1, 2):
             run_case(res, root, p, s, rel, None, False, threads, cache)
         faults = [("A", i) for i in range(p)] + [("B", j) for j in range(s)]
